@@ -2,7 +2,7 @@
 
 spec   : specs/Geometry.tla, machine InitFwd (Place, Flip, Tilt, Shift, Origin, Diff, RotateG, Project) in exact
          rational arithmetic at right / Pythagorean angles.  TLC checks TypeOK, StackOrtho, NormLaw, OmegaLaw,
-         OriginLaw, Roundtrip on every state and emits one record per terminal state (exact xyz, o, d, G, A = G d,
+         OriginLaw, Roundtrip, UnitLaw on every state and emits one record per terminal state (exact xyz, o, d, G, A = G d,
          Bx = G e_x).
 binding: mode A.  The records of one parameter set form a batch of peaks; the batch is fed to every route and every
          output is compared with the oracle (never with another route):
@@ -10,10 +10,14 @@ binding: mode A.  The records of one parameter set form a batch of peaks; the ba
            c      Ctransform (sf2xyz, xyz2gv, xyz2geometry, sf2gv) + raw cImageD11 kernels with an independent packing and
                   dirty output buffers; compute_xlylzl also with a non-zero dist[1], dist[2]
            ct     Ctransform with caller-supplied out= buffers (must be returned, every row written); an object built
-                  for other parameters whose .pars are edited followed by reset(); the source dictionary edited after
-                  construction (must not matter)
+                  for other parameters whose .pars are edited followed by reset() - all of them, and only a SUBSET of them
+                  (two of the rotation G.SUBSETS per batch); the source dictionary edited after construction (must not matter)
            cf     columnfile.updateGeometry / updateGV fast and slow, translation by parameter and by argument;
-                  histories on one object (other parameters first, then set / dict.update / loadparameters from a file)
+                  histories on one object (other parameters first, then set / dict.update / loadparameters from a file);
+                  histories in which only a SUBSET of the parameters changes between the two updates (G.SUBSETS: every
+                  single parameter, the flip, wedge+chi, translation, detector, non-detector, ... - three of the rotation
+                  per batch; the shape rotates too: updateGeometry / updateGV in each order, compiled / Python route,
+                  parameters.set / dictionary item / new parameters object / pars= argument, translation by argument)
            cfx    columnfile storage and naming variants: xc,yc titles; one 2-D array behind the columns that already
                   holds all nine geometry columns (attribute, getcolumn and array rows must agree); a bare 2-D array;
                   after copy(); after filter(all true); bigarray taken between two updates
@@ -34,6 +38,21 @@ binding: mode A.  The records of one parameter set form a batch of peaks; the ba
          two further get_local_gv grids on seeded subsets (1/2, 1/2, 1/4, 1/3); cfx runs on a seeded third of all batches,
          the parameter-file history on a quarter, the two grain positions of al alternate.  notes["families"] counts how
          often each family was exercised (vacuity guard: >= 20 each).
+         The length unit (UnitLaw of the specification: xyz, o, d are homogeneous of degree one in pixel sizes, distance and
+         translation, so angles and g-vectors do not depend on the unit): every eighth batch of the corner set (thorough: every 32nd of
+         the 16384 batches) and a fiftieth of the others go through every route family once more written in mm, metres, 2^-10, 2^-20 or nanometres
+         (rotation; lengths chosen by the harness - xpos, ystep, dist[1:] - in the same unit); expected angles, k, g, ds
+         unchanged, xyz and origins times the unit (their absolute tolerance term too).
+         Calls alive at the same time (c01_alive.py; the model makes a record a function of its own lattice point, so a
+         result may depend neither on a call of another user in flight nor on a later call): (a) re-entrancy - teams of 4
+         and 3 PYTHON threads, each looping over its own parameter set (pairwise different wedge / chi; omega signs,
+         translations, flips mixed) and its own objects on tables of 100000 / 250000 rows through Ctransform (sf2xyz,
+         xyz2gv, xyz2geometry, sf2gv), columnfile.updateGeometry / updateGV(fast=True), the raw kernels and (first team)
+         the slow columnfile route, every output against that thread's own oracle; vacuity guard on the number of compiled
+         calls during which another thread started one (compute_geometry is `threadsafe` in _cImageD11.pyf: no GIL);
+         (b) results keep standing - all 144 histories of two allocating calls by two callers with tables of equal
+         length (7 and 70000 rows; thorough also 4097, 300000) and other parameters: the first result is judged again after
+         the second call and np.shares_memory between them must be false (also over what the threads kept).
          Geometry domain: the distance of a lattice point is one of 60, 70 (forward detector), -60 (back-scattering
          detector) and 2 (near field: the tilted detector reaches behind the sample, a translated grain lies beyond it), so
          every route is compared with the oracle on both sides of two-theta = 90 degrees in about a third of the batches
@@ -48,6 +67,7 @@ import json, time
 import numpy as np
 import common
 import c01_geometry as G
+import c01_alive as A
 
 PROP = "C01"
 WORKERS = 16
@@ -60,9 +80,10 @@ def nontrivial(par):
 BASE_ROUTES = ("py", "c", "ct", "cf", "numba", "rg", "al")
 
 
-def judge_batch(chk, rt, group, lengths, stats, replaying=None, plan=None):
-    """plan = {"routes": route families of the plain batch, "typed": None / "int" / "str"} (default: everything)"""
-    orc = G.Oracle(group)
+def judge_batch(chk, rt, group, lengths, stats, replaying=None, plan=None, unit=None):
+    """plan = {"routes": route families of the plain batch, "typed": None / "int" / "str"} (default: everything);
+    unit: the batch is written in another length unit (G.Oracle: same expected angles and g-vectors, lengths times unit)"""
+    orc = G.Oracle(group, unit=unit)
     plan = plan or {"routes": G.ALL_ROUTES, "typed": None}
     jobs = []               # (length, threads, routes, typing)
     for L in lengths:
@@ -86,13 +107,14 @@ def judge_batch(chk, rt, group, lengths, stats, replaying=None, plan=None):
         if J.problems:
             what = "%s%s [%d disagreeing outputs; parameters %s]" % (
                 J.problems[0], "" if L is None else " [batch length %d, %s OpenMP threads]" % (L, nt or "default"), len(J.problems),
-                json.dumps(G.pars_of(group[0]["par"]), sort_keys=True))
+                json.dumps(orc.P, sort_keys=True))
             if replaying:                    # re-judging a saved case: nothing is written
                 print("  violation: %s" % what)
                 chk.violations.append((what, replaying))
             else:
                 chk.violation(what, {"kind": "fwd", "records": group, "length": L, "threads": nt, "routes": list(routes),
-                                     "typed": typing, "problems": J.problems[:20]})
+                                     "typed": typing, "problems": J.problems[:20],
+                                     "unit": None if unit is None else [orc.unit.numerator, orc.unit.denominator]})
             break
     return orc
 
@@ -117,8 +139,17 @@ def run(tier, replay=None):
              "default_threads": int(rt.c.cimaged11_omp_get_max_threads())}
     if replay:
         case = json.load(open(replay))["case"]
-        judge_batch(chk, rt, case["records"], [case.get("length")], stats, replaying=replay,
-                    plan={"routes": G.ALL_ROUTES, "typed": case.get("typed")})
+        from fractions import Fraction
+        if case.get("kind") == "alive":
+            def again(what, obj):
+                print("  violation: %s" % what)
+                chk.violations.append((what, replay))
+            A.replay(rt, case, stats, again)
+            case = dict(case, records=[r for g in case["groups"] for r in g])
+        else:
+            judge_batch(chk, rt, case["records"], [case.get("length")], stats, replaying=replay,
+                        plan={"routes": G.REPLAY_ROUTES, "typed": case.get("typed")},
+                        unit=Fraction(*case["unit"]) if case.get("unit") else None)
         chk.traces += len(case["records"])
         chk.case(replay)
         chk.sample({"replayed": replay})
@@ -147,7 +178,9 @@ def run(tier, replay=None):
     seen = {"flip": set(), "sgn": set(), "sizes": set(), "t_nonzero": 0, "eta_undefined": 0, "normlaw_in_tlc": 0,
             "pythagorean_3": 0, "beyond_90_back_scattering_detector": 0, "beyond_90_near_field_tilted": 0,
             "beyond_90_near_field_translated": 0, "beyond_90_near_field_tilted_and_translated": 0, "beyond_90_forward_detector": 0,
-            "batches_beyond_90": 0}
+            "batches_beyond_90": 0, "unit_batches": 0}
+    units = G.unit_scales(recs)
+    chk.notes["length_units"] = [str(x) for x in units]
     t0 = time.time()
     for gi, group in enumerate(groups):
         lengths = [None]
@@ -170,6 +203,13 @@ def run(tier, replay=None):
                 + (("al_last", "al_first")[gi % 2],),
                 "typed": None if u[2] >= 0.05 else ("int", "str")[gi % 2]}
         orc = judge_batch(chk, rt, group, lengths, stats, plan=plan)
+        # the length unit is free (UnitLaw of the specification): a sample of the batches (every eighth of the corner set,
+        # a fiftieth of the others) is replayed through every route family in one unit of the rotation (mm, metres,
+        # 2^-10, 2^-20, nanometres): same expected angles and g-vectors, lengths times the unit
+        if (len(group) >= 4 and gi % (8 if tier == "quick" else 32) == 0) or (len(group) < 4 and u[7] < 0.02):
+            uu = units[seen["unit_batches"] % len(units)]
+            seen["unit_batches"] += 1
+            judge_batch(chk, rt, group, [None], stats, plan={"routes": BASE_ROUTES + ("cfx", "cf_file"), "typed": None}, unit=uu)
         par = group[0]["par"]
         for s in seen_angles:
             seen_angles[s].add(tuple(par[s]))
@@ -201,8 +241,13 @@ def run(tier, replay=None):
             chk.sample({"record": group[-1], "parameters": G.pars_of(par)})
         if len(chk.violations) > 24:
             break
+    # calls alive at the same time: python threads with their own parameter sets; results of earlier calls keep standing
+    if len(chk.violations) <= 24:
+        A.run(rt, groups, np.random.default_rng([common.seed(), 101]), tier, stats, chk.violation)
     stats["thread_counts"] = sorted(stats["thread_counts"])
+    subset_counts = {k.split(":", 1)[1]: int(v) for k, v in stats["families"].items() if k.startswith("cf_subset_history:")}
     stats["families"] = {k: int(stats["families"].get(k, 0)) for k in G.FAMILIES}
+    stats["cf_subset_histories_by_subset"] = subset_counts
     chk.notes.update(stats)
     chk.notes["batches"] = len(groups)
     chk.notes["replay_s"] = round(time.time() - t0, 1)
@@ -230,9 +275,17 @@ def run(tier, replay=None):
             raise common.MachineryError("vacuity: only %d records with two-theta > 90 degrees in the class %s" % (seen[k], k))
     if len(seen["flip"]) != 8 or len(seen["sgn"]) != 2 or len(seen["sizes"]) != 4:
         raise common.MachineryError("vacuity: not all 8 flips x 2 omega signs x 4 pixel-size sign pairs occurred %r" % (seen,))
+    if seen["unit_batches"] < 4 * len(units):
+        raise common.MachineryError("vacuity: only %d batches were replayed in another length unit" % seen["unit_batches"])
+    for nm, keys in G.SUBSETS:
+        if subset_counts.get(nm, 0) < 5:
+            raise common.MachineryError("vacuity: subset history '%s' ran %d times" % (nm, subset_counts.get(nm, 0)))
     for k, v in stats["families"].items():
         if v < 20:
             raise common.MachineryError("vacuity: instance family %s was exercised %d times" % (k, v))
+    if stats.get("alive_overlapped_calls", 0) < 12 or stats.get("alive_histories", 0) < 288:
+        raise common.MachineryError("vacuity: calls alive at the same time: %d overlapped calls, %d histories" % (
+            stats.get("alive_overlapped_calls", 0), stats.get("alive_histories", 0)))
     selftest(rt, groups)
     return chk.finish()
 
@@ -253,3 +306,4 @@ def selftest(rt=None, groups=None):
     for pt in ("xyz", "g", "eta"):
         if not G.judge_fwd(rt, G.Oracle(group, perturb=pt)).problems:
             raise common.MachineryError("selftest: perturbed %s accepted" % pt)
+    A.selftest(rt, group)
